@@ -82,8 +82,7 @@ func runC02(w *W) {
 	var reqBase *base.Base
 	var baseBytes []byte
 	if t.Chance(1, 8, "sch.base") && sch.Root.St.ByID(32000) == nil {
-		sch.Includes = map[string]string{"base.thrift": baseIDL}
-		sch.IncludeText = "include \"base.thrift\"\n"
+		sch.AddInclude("base.thrift", baseIDL)
 		sch.Root.St.RawFields = append(sch.Root.St.RawFields, "32000: base.Base Base")
 		sch.IDL = renderIDL(sch)
 		po.EnableThriftBase = true
